@@ -239,7 +239,15 @@ def run(ctx):
             # the instruction list, by type: the Vec<i64>
             if t["k"] == "call" and (t.get("callee") or "").endswith("Vec::<T, A>::push") and mir.op_place(t["args"][0]) \
                     and "Vec<i64>" in f.local_ty(mir.op_place(t["args"][0])["l"]):
-                wtxt.append(show(f.expr_op(t["args"][1])))
+                pl_ = mir.op_place(t["args"][1])
+                ds_ = f.defs(pl_["l"]) if pl_ and not pl_["p"] else []
+                if len(ds_) > 1 and not f.local_name(pl_["l"]):
+                    # a pushed temporary assigned on several paths (e.g. the result of an inlined helper with two returns):
+                    # every value it can hold is an emitted instruction
+                    for d_ in ds_:
+                        wtxt.append(show(f.expr_rvalue(f.def_rvalue(d_))) if d_[1] != "T" else "call")
+                else:
+                    wtxt.append(show(f.expr_op(t["args"][1])))
     plus2 = [w for w in wtxt if w.endswith(" Add 2)") and "Neg" not in w]
     neg2 = [w for w in wtxt if w.startswith("Neg(") and " Add 2)" in w]
     consop = [w for w in wtxt if "cons_opcode" in w]
